@@ -17,6 +17,7 @@ import (
 	"reflect"
 	"sort"
 	"strings"
+	"sync/atomic"
 	"testing"
 	"time"
 
@@ -196,8 +197,9 @@ func TestC20(t *testing.T) {
 		dualUnmarshalers(r)
 		manyFailingLookups(r)
 		untaggedEmbeddedPointers(r)
+		applyDuringRotation(r)
 	}
-	r.Require("applies_with_many_failing_lookups", "untagged_embedded_pointers_checked", "applies_to_another_store", "applies_with_a_hanging_field", "dual_unmarshaler_fields", "stores_over_several_structs", "tagged_embedded_fields", "populated_structs", "rejected_shapes", "rejected_arguments", "failing_field_cases", "bytes_fields_mutated", "secret_fields_followed_poll", "shared_secret_fields", "embedded_structs", "untagged_fields_checked", "second_applies")
+	r.Require("applies_during_a_rotation", "applies_with_many_failing_lookups", "untagged_embedded_pointers_checked", "applies_to_another_store", "applies_with_a_hanging_field", "dual_unmarshaler_fields", "stores_over_several_structs", "tagged_embedded_fields", "populated_structs", "rejected_shapes", "rejected_arguments", "failing_field_cases", "bytes_fields_mutated", "secret_fields_followed_poll", "shared_secret_fields", "embedded_structs", "untagged_fields_checked", "second_applies")
 	r.Rule("struct types generated at run time: 1-8 fields in random order from {[]byte, string, setec.Secret, value/pointer BinaryUnmarshaler, ',json' struct/map/int} + unsupported {int, []string, *string, map[string]string, bool, empty tag name} + untagged fields of 5 kinds with sentinel contents, optionally one embedded predeclared struct; prefixes {'', a, a/b, dev/prog}; several fields may name the same secret; scripted failing fields (bad JSON, UnmarshalBinary error); via StoreConfig.Structs and via ParseFields+Apply. Distinct = (entry point, sorted set of field kinds, has failing field, prefix)")
 }
 
@@ -1281,4 +1283,62 @@ func untaggedEmbeddedPointers(r *evid.Run) {
 			}
 		}
 	}
+}
+
+// applyDuringRotation: Apply re-populates the fields of a struct while the poller installs new versions of
+// the same secrets, of other lengths. Each field receives a value the secret HAS HAD - bytes of one version,
+// whole - never a mixture cut or padded to another version's length.
+func applyDuringRotation(r *evid.Run) {
+	svc := fakesvc.New()
+	short, long := []byte("SHORT-KEY"), []byte(strings.Repeat("LONG-KEY-", 16))
+	vals := [][]byte{short, long, []byte("mid-length-value-0123456789"), {}}
+	svc.Set("rot/b", 1, short)
+	svc.Set("rot/s", 1, short)
+	st, err := setec.NewStore(context.Background(), setec.StoreConfig{Client: svc, Secrets: []string{"rot/b", "rot/s"}, PollInterval: -1, Logf: func(string, ...any) {}})
+	if err != nil {
+		panic(err)
+	}
+	defer st.Close()
+	var v struct {
+		B []byte `setec:"b"`
+		S string `setec:"s"`
+	}
+	f, err := setec.ParseFields(&v, "rot")
+	if err != nil {
+		r.Violation("spurious-error", -1, err.Error(), nil)
+		return
+	}
+	var stop atomic.Bool
+	done := make(chan struct{})
+	go func() {
+		defer close(done)
+		for ver := uint32(2); !stop.Load(); ver++ {
+			svc.Set("rot/b", ver, vals[int(ver)%len(vals)])
+			svc.Set("rot/s", ver, vals[int(ver+1)%len(vals)])
+			st.Refresh(context.Background())
+		}
+	}()
+	isOne := func(b []byte) bool {
+		for _, x := range vals {
+			if string(x) == string(b) {
+				return true
+			}
+		}
+		return false
+	}
+	for i, n := 0, r.N(20000, 200000); i < n; i++ {
+		if err := f.Apply(context.Background(), st); err != nil {
+			r.Violation("spurious-error", -1, "Apply during a rotation: "+err.Error(), nil)
+			break
+		}
+		r.Count("applies_during_a_rotation", 1)
+		if !isOne(v.B) || !isOne([]byte(v.S)) {
+			r.Violation("field-value-never-held", -1, fmt.Sprintf("Apply #%d while the poller was installing versions of other lengths: the []byte field holds %d bytes %.60q, the string field %d bytes %.60q; the secrets only ever held values of %d, %d, %d and 0 bytes, none of them this", i, len(v.B), v.B, len(v.S), v.S, len(short), len(long), len(vals[2])), nil)
+			break
+		}
+	}
+	stop.Store(true)
+	<-done
+	r.Eval(1)
+	r.Distinct("apply during a rotation")
 }
